@@ -35,9 +35,18 @@ case "${1:-}" in
     exit $? ;;
   replay)
     build colverif || { echo "HARNESS-ERROR: build failed" >&2; exit 2; }
+    if grep -q '"property": "C18"' "$2" && grep -q '"unit": "race/' "$2"; then
+      build colverif-race -race || { echo "HARNESS-ERROR: race build failed" >&2; exit 2; }
+      mkdir -p "$B/tmp"
+      export GORACE="halt_on_error=0 history_size=3 log_path=$B/tmp/race-replay" VERIF_RACE_LOG="$B/tmp/race-replay"
+      exec "$B/colverif-race" replay "$2"
+    fi
     exec "$B/colverif" replay "$2" ;;
   *)
     id="$1"; tier="${2:-quick}"
     build colverif || { echo "HARNESS-ERROR: build of harness against $REPO failed" >&2; exit 2; }
+    if [ "$id" = "C18" ]; then
+      build colverif-race -race || { echo "HARNESS-ERROR: race build of harness against $REPO failed" >&2; exit 2; }
+    fi
     exec "$B/colverif" check "$id" "$tier" ;;
 esac
